@@ -94,6 +94,22 @@ func (x *Uint32) Add(d uint32) uint32 {
 	return r
 }
 
+type Bool struct{ v atomic.Bool }
+
+func (x *Bool) Load() bool {
+	pre("loadbool", unsafe.Pointer(x))
+	r := x.v.Load()
+	sched.Observe(b2u(r))
+	return r
+}
+func (x *Bool) Store(v bool) { pre("storebool", unsafe.Pointer(x)); x.v.Store(v) }
+func (x *Bool) CompareAndSwap(old, new bool) bool {
+	pre("casbool", unsafe.Pointer(x))
+	r := x.v.CompareAndSwap(old, new)
+	sched.Observe(b2u(r))
+	return r
+}
+
 type Uint64 struct{ v atomic.Uint64 }
 
 func (x *Uint64) Load() uint64 {
